@@ -15,5 +15,14 @@ for e in kf:
 d = (V / 'DESIGN.md').read_text()
 d = re.sub(r"<!-- GEN:props -->.*?<!-- /GEN -->", lambda m: "<!-- GEN:props -->\n" + "\n".join(rows) + "\n<!-- /GEN -->", d, flags=re.S)
 d = re.sub(r"<!-- GEN:findings -->.*?<!-- /GEN -->", lambda m: "<!-- GEN:findings -->\n" + "\n".join(fr) + "\n<!-- /GEN -->", d, flags=re.S)
+sr = ["| seed | property | change (written by an independent sub-agent from the property text only) | needs | reported by |", "|---|---|---|---|---|"]
+for sd in sorted((V / 'seeded').glob('*/meta.json')):
+    m = json.loads(sd.read_text())
+    ev = m.get("evaluation", {})
+    caught = ", ".join(c.replace("./check ", "").replace(" --tier quick", "") for c in ev.get("caught_by", [])) or "**not caught (quick tier)**"
+    sr.append("| %s | %s | %s | %s | %s |" % (sd.parent.name, m.get("breaks_property", ""), str(m.get("summary", ""))[:260].replace("|", "/").replace("\n", " "),
+                                           str(m.get("needs", ""))[:200].replace("|", "/").replace("\n", " "), caught))
+d = re.sub(r"<!-- GEN:seeded -->.*?<!-- /GEN -->", lambda m_: "<!-- GEN:seeded -->\n" + "\n".join(sr) + "\n<!-- /GEN -->", d, flags=re.S)
 (V / 'DESIGN.md').write_text(d)
+print("seeded table:", len(sr) - 2, "entries")
 print("DESIGN.md tables regenerated:", len(rows) - 2, "properties,", len(fr) - 2, "findings")
